@@ -8,6 +8,7 @@ package c03
 
 import (
 	"os"
+	"sync"
 
 	"verifharness/core"
 )
@@ -15,12 +16,25 @@ import (
 func init() { core.Register("C03", Run) }
 
 func Run(r *core.Run) {
+	// the TLC runs of this check are short (seconds): C2 compilation and a wide parallel
+	// collector cost more CPU than they save (measured 70 s -> 27 s user on the fold grid)
+	if os.Getenv("_JAVA_OPTIONS") == "" {
+		os.Setenv("_JAVA_OPTIONS", "-XX:TieredStopAtLevel=1 -XX:ParallelGCThreads=2")
+	}
 	r.Assume("V8 (Node 20) implements ECMAScript on the generated fragment; where JsSem/JsFold and V8 disagree on the INPUT program the case is reported as drift and excluded")
 	r.Assume("finite results of ** and folds whose exact value needs non-integer float arithmetic are judged by V8 only (DESIGN.md section 6)")
 	r.Assume("the probe host (p, o, G, parameters) is the only observable channel: calls with arguments, property traffic on the recorder object, valueOf calls, thrown exception class, completion value")
+	// the two bindings are independent: run them side by side (4 TLC workers each)
+	var wg sync.WaitGroup
 	if os.Getenv("C03_SKIP_FOLD") == "" {
-		foldBinding(r)
+		wg.Add(1)
+		go func() { defer wg.Done(); foldBinding(r) }()
 	}
-	programBinding(r, map[bool]string{false: "JsSemGen.quick.cfg", true: "JsSemGen.thorough.cfg"}[r.Thorough()])
+	wg.Add(1)
+	go func() {
+		defer wg.Done()
+		programBinding(r, map[bool]string{false: "JsSemGen.quick.cfg", true: "JsSemGen.thorough.cfg"}[r.Thorough()])
+	}()
+	wg.Wait()
 	r.Set("rule", "fold: every (operator, a, b) over the 22-value boundary grid in each compile-time-evaluation context; programs: TLC-generated expression trees / statement skeletons with probe leaves x environments; non-trivial = the program matches >= 1 peephole pattern class of JsSem and the minified output differs textually from the unminified print; distinct by (program, options)")
 }
